@@ -273,7 +273,7 @@ func c18CloseCases() []c18CloseCase {
 		for _, typ := range []int{2, 1} {
 			for _, pre := range c18Preludes {
 				for _, code := range append(append([]int(nil), c18EOFCodes...), c18OtherCodes...) {
-					for _, rl := range []int{0, 20} {
+					for _, rl := range []int{0, 20, 122, 123} {
 						out = append(out, c18CloseCase{Kind: "close", BClient: bc, Type: typ, Code: code, Reason: rl, Prelude: pre})
 					}
 					out = append(out, c18CloseCase{Kind: "close", BClient: bc, Type: typ, Code: code, Reason: 3, Prelude: pre, EchoFails: true})
